@@ -510,12 +510,6 @@ Proof. exact (proj2 (eval_refines_spec u fuel e) o). Qed.
 
 (** what the harness observes ([EvalRun.eval_nc]: the result with every lazily evaluated
     iterable consumed) is the reference value consumed *)
-Definition consumed (r : res value) : res value :=
-  match r with
-  | Ok v => match deep_err v with Some c => Err c true | None => Ok v end
-  | Err c ee => Err c ee
-  end.
-
 Theorem C05_refinement_observed u fuel e o : fst (eval_nc u fuel e o) = consumed (sem u fuel e o).
 Proof.
   rewrite <- C05_refinement. unfold eval_nc.
@@ -839,3 +833,147 @@ Section Sentences2.
     rewrite H2. cbn [rbind]. rewrite H3. destruct (dict_of_pairs pairs []); reflexivity.
   Qed.
 End Sentences2.
+
+(** ** Sharper forms of the sentences (switch one case at a time; coalesce with a boolean side
+    condition and the refutation of the unconditional sentence; Map: count, assignments, override) *)
+Section Sentences3.
+  Variable u : N -> list value -> cres.
+  Variable fuel : nat.
+  Notation sem := (Spec.sem u fuel).
+  Notation semv := (Spec.sem_valid u fuel).
+
+  (** switch takes the branch registered under the dispatch value … *)
+  Lemma switch_registered disp tbl dflt o k b :
+    sem disp o = Ok k -> hashable k = true -> assoc_v k tbl = Some b ->
+    sem (ESwitch disp tbl dflt) o = sem b o.
+  Proof. intros Hd Hh Ha. now rewrite switch_spec, Hd, Hh, Ha. Qed.
+
+  (** … otherwise the default … *)
+  Lemma switch_unregistered_default disp tbl d o k :
+    sem disp o = Ok k -> hashable k = true -> assoc_v k tbl = None ->
+    sem (ESwitch disp tbl (Some d)) o = sem d o.
+  Proof. intros Hd Hh Ha. now rewrite switch_spec, Hd, Hh, Ha. Qed.
+
+  (** … also when the dispatch cannot be evaluated (whatever its failure). *)
+  Lemma switch_dispatch_fails_default disp tbl d o c ee :
+    sem disp o = Err c ee -> c <> CUnmodelled ->
+    sem (ESwitch disp tbl (Some d)) o = sem d o.
+  Proof.
+    intros Hd Hc. rewrite switch_spec, Hd.
+    destruct c; try reflexivity. congruence.
+  Qed.
+
+  (** coalesce, the side condition as a boolean: the member fails with an EvaluationError at
+      validation, or validates and fails at evaluation *)
+  Definition passed_overb (o : dict) (m : expr) : bool :=
+    match semv m o with
+    | Err c true => negb (is_unmodelled c)
+    | Err _ false => false
+    | Ok _ => match sem m o with Err c true => negb (is_unmodelled c) | _ => false end
+    end.
+
+  Lemma passed_overb_sound o m : passed_overb o m = true -> passed_over u fuel o m.
+  Proof.
+    unfold passed_overb, passed_over. intros H.
+    destruct (semv m o) as [[]|c [|]] eqn:Ev; [| |discriminate].
+    - destruct (sem m o) as [v|c [|]] eqn:Es; try discriminate.
+      exists c. split; [destruct c; try discriminate; discriminate H|]. right. now split.
+    - exists c. split; [destruct c; try discriminate; discriminate H|]. now left.
+  Qed.
+
+  Lemma coalesce_first_evaluable_b pre m post o v :
+    forallb (passed_overb o) pre = true -> semv m o = Ok tt -> sem m o = Ok v ->
+    sem (ECoalesce (pre ++ m :: post)) o = Ok v.
+  Proof.
+    intros Hp. apply coalesce_first_evaluable.
+    apply Forall_forall. intros x Hx. apply passed_overb_sound.
+    rewrite forallb_forall in Hp. now apply Hp.
+  Qed.
+
+  (** Map: one pair per assignment, the assignments in order *)
+  Definition pair_fst (v : value) : value := match v with VT _ (a :: _) => a | _ => v end.
+  Definition pair_snd (v : value) : value := match v with VT _ [_; b] => b | _ => v end.
+
+  Lemma map_pairs_shape e o rows out :
+    map_pairs u fuel e o rows out ->
+    length out = length rows /\ map pair_fst out = map row_dict rows.
+  Proof.
+    induction 1 as [|row rows os r out _ _ _ _ [IH1 IH2]]; [split; reflexivity|].
+    cbn [length map pair_fst]. now rewrite IH1, IH2.
+  Qed.
+
+  Lemma product_length {A} (ls : list (list A)) :
+    length (product ls) = fold_right (fun l n => (length l * n)%nat) 1%nat ls.
+  Proof.
+    induction ls as [|l ls IH]; [reflexivity|].
+    cbn [product fold_right]. rewrite <- IH. clear IH.
+    induction l as [|a l IHl]; [reflexivity|].
+    cbn [flat_map length]. rewrite app_length, map_length, IHl. reflexivity.
+  Qed.
+
+  (** … hence as many pairs as the cartesian product of the evaluated iterables has elements,
+      the i-th pair carrying the i-th assignment *)
+  Lemma map_one_pair_per_combination e its o vals out :
+    Forall2 (iterates u fuel o) its vals ->
+    map_pairs u fuel e o (map (fun combo => combine (map fst its) combo) (product vals)) out ->
+    sem (EMap e its) o = Ok (VT T_ITER out) /\
+    length out = fold_right (fun l n => (length l * n)%nat) 1%nat vals /\
+    map pair_fst out = map (fun combo => row_dict (combine (map fst its) combo)) (product vals).
+  Proof.
+    intros Hi Hp. split; [now apply (map_cartesian_in_order u fuel e its o vals out)|].
+    destruct (map_pairs_shape _ _ _ _ Hp) as [H1 H2].
+    rewrite map_length, product_length in H1. rewrite map_map in H2. now split.
+  Qed.
+
+  (** each result is the body's value under the caller's options overridden by the assignment:
+      under the dictionary [mix o os] that [map_pairs] evaluates the body with, the assigned key
+      holds the assigned value (whatever the caller had there) and every key that diverges from
+      it holds the caller's value *)
+  Lemma map_assignment_overrides k j o os :
+    k <> [] -> forallb is_name k = true -> wf_json j = true -> (forall m, j <> JObj m) ->
+    srow_options [(k, VJ j)] = Ok os ->
+    lookup k (JObj (mix o os)) = Found j /\
+    (forall k' w, diverge k k' = true -> forallb is_name k' = true ->
+                  lookup k' (JObj o) = Found w -> lookup k' (JObj (mix o os)) = Found w).
+  Proof.
+    intros Hne Hn Hwf Hns H. unfold srow_options in H.
+    cbn [flat_map json_of_value snd fst app] in H.
+    change (option_set [(k, j)] []) with
+      (match set_dotted k j [] with Some acc' => Some acc' | None => None end) in H.
+    rewrite set_dotted_nil in H by exact Hne.
+    destruct k as [|s k']; [congruence|]. cbn [single as_dict length Nat.eqb andb] in H.
+    inversion H; subst os.
+    change (mix o [(s, single k' j)]) with (set_option (s :: k') j o).
+    split; [now apply set_then_get|]. intros k2 w Hd Hn2 Hl. now apply set_keeps_other_keys.
+  Qed.
+  (** [src >> f] / [src.apply(f)] for a user function: what the user code returns for the
+      source's value (seen with every generator forced), or its exception *)
+  Lemma apply_user_function src fn o x f :
+    sem src o = Ok x -> sem fn o = Ok (VF f [] []) -> user_fn f = true -> deep_err x = None ->
+    sem (EApply src fn) o =
+      match u f [listify x] with COk v => Ok v | CRaise n => Err (CUser n) true end.
+  Proof.
+    intros Hs Hf Hu Hd. rewrite (apply_is_application u fuel src fn o x _ Hs Hf).
+    unfold user_fn in Hu. apply negb_true_iff in Hu.
+    apply orb_false_iff in Hu as [Hu H4]. apply orb_false_iff in Hu as [Hu H3].
+    apply orb_false_iff in Hu as [H1 H2].
+    cbn [scall_value]. rewrite H4. cbn [app]. unfold scall_fun. rewrite H1, H2, H3.
+    unfold deep_err_list. rewrite Hd. cbn [map].
+    destruct (u f [listify x]); reflexivity.
+  Qed.
+End Sentences3.
+
+(** The unconditional sentence "coalesce yields the first member that can be evaluated" is FALSE
+    of the code as it is (finding D23): a member whose bind function raises aborts the coalesce —
+    the exception leaves the member's validate un-wrapped — although the next member can be
+    evaluated. *)
+Lemma coalesce_first_evaluable_refuted :
+  exists (u : N -> list value -> cres) (fuel : nat) m1 m2 o v,
+    (exists c, sem u fuel m1 o = Err c true) /\
+    sem_valid u fuel m2 o = Ok tt /\ sem u fuel m2 o = Ok v /\
+    exists c, sem u fuel (ECoalesce [m1; m2]) o = Err c true.
+Proof.
+  exists (fun _ _ => COk VMissing), 5%nat,
+         (EBind (EValue (VJ (JInt 2))) [] None), (EValue (VJ (JInt 1))), [], (VJ (JInt 1)).
+  vm_compute. repeat split; eexists; reflexivity.
+Qed.
